@@ -21,7 +21,8 @@ RULE = ('cases: sources of length 0-6 as list / tuple / range / generator / plai
         'position >=1; distinct by case hash')
 ASSUMPTIONS = ['full consumption only (early break is outside the statement)', 'the loop= argument is idle and not shared',
                'cooperative shims (ThreadPoolExecutor, queue.Queue) faithful (selftest)']
-CORPUS_PREEMPTIONS = {}
+# delay injection only for to_sync_iter programs: the to_async_iter ones carry a loop-responsiveness (ticker) oracle
+CORPUS_PREEMPTIONS = {'stalls': [0.3, 2.0], 'stall_filter': lambda case: case['dir'] == 'a2s'}
 BUDGET = {'quick': 300, 'thorough': 8000}
 ESSENTIAL = ['nontrivial', 'dir=s2a', 'dir=a2s', 'fails']
 TICK = H.TICK
